@@ -147,6 +147,12 @@ class ScalarFunction:
                 self.g = approx_derivative(
                     fun_wrapped, self.x, f0=self.f, **finite_diff_options
                 )
+                # a variable with lb == ub cannot be perturbed inside its bounds: the
+                # adjusted step is zero and the difference quotient is nan
+                lb, ub = finite_diff_options["bounds"]
+                is_fixed = np.broadcast_to(np.asarray(lb) == np.asarray(ub), self.g.shape)
+                if is_fixed.any():
+                    self.g = np.where(is_fixed, 0.0, self.g)
 
         self._update_grad_impl = update_grad
 
